@@ -9,7 +9,10 @@ import (
 )
 
 type networkSimplexProcessor struct {
-	nodes            map[string]*graph.Node
+	// maps the nodes of the graph to their counterparts in the auxiliary graph;
+	// keyed by node rather than by node id, because ids are chosen by the caller and may coincide
+	// with the ids generated for virtual nodes ("V1") and for the auxiliary edge nodes ("NE0")
+	nodes            map[*graph.Node]*graph.Node
 	edgeWeightFactor int
 	nodeSpacing      float64
 }
@@ -22,7 +25,7 @@ type networkSimplexProcessor struct {
 // It constructs an auxiliary graph and runs network simplex on it. The resulting layers are the X coordinates of the main graph.
 func execNetworkSimplex(g *graph.DGraph, params graph.Params) {
 	p := &networkSimplexProcessor{
-		nodes:            map[string]*graph.Node{},
+		nodes:            map[*graph.Node]*graph.Node{},
 		edgeWeightFactor: params.NetworkSimplexAuxiliaryGraphWeightFactor,
 		nodeSpacing:      params.NodeSpacing,
 	}
@@ -42,7 +45,7 @@ func execNetworkSimplex(g *graph.DGraph, params graph.Params) {
 	for _, l := range g.Layers {
 		for _, n := range l.Nodes {
 			l.H = max(l.H, n.H)
-			n.X = float64(p.nodes[n.ID].Layer)
+			n.X = float64(p.nodes[n].Layer)
 		}
 	}
 }
@@ -54,7 +57,7 @@ func (p *networkSimplexProcessor) auxiliaryGraph(g *graph.DGraph) *graph.DGraph 
 		m := &graph.Node{ID: n.ID}
 		m.W = n.W
 		m.H = n.H
-		p.nodes[m.ID] = m
+		p.nodes[n] = m
 		g1.Nodes = append(g1.Nodes, m)
 	}
 	for i, e := range g.Edges {
@@ -62,12 +65,11 @@ func (p *networkSimplexProcessor) auxiliaryGraph(g *graph.DGraph) *graph.DGraph 
 			continue
 		}
 		ne := &graph.Node{ID: "NE" + strconv.Itoa(i)}
-		p.nodes[ne.ID] = ne
 		g1.Nodes = append(g1.Nodes, ne)
 
 		weight := e.Weight * omega(e) * p.edgeWeightFactor
 
-		u, v := p.nodes[e.From.ID], p.nodes[e.To.ID]
+		u, v := p.nodes[e.From], p.nodes[e.To]
 
 		eu := graph.NewEdge(ne, u, weight)
 		eu.Delta = 0
@@ -83,8 +85,8 @@ func (p *networkSimplexProcessor) auxiliaryGraph(g *graph.DGraph) *graph.DGraph 
 	}
 	for _, l := range g.Layers {
 		for i := 0; i < len(l.Nodes)-1; i++ {
-			v := p.nodes[l.Nodes[i].ID]
-			w := p.nodes[l.Nodes[i+1].ID]
+			v := p.nodes[l.Nodes[i]]
+			w := p.nodes[l.Nodes[i+1]]
 			f := graph.NewEdge(v, w, 0)
 			f.Delta = int(math.Round(p.distCenterPoints(v, w)))
 			g1.Edges = append(g1.Edges, f)
